@@ -792,3 +792,240 @@ def inplace_params(path, cls, func):
                     visit(sub)
     visit(fn.body)
     return hits
+
+
+# ----------------------------------------------------------------------------------------------
+# method-level histories on ONE analysis object
+# ----------------------------------------------------------------------------------------------
+ANALYSIS_KINDS = ('wavefront', 'psf', 'mtf', 'analysis')
+
+
+def make_analysis(optic, op):
+    """construct the analysis object an op of kind wavefront / psf / mtf / analysis describes (and keep it)"""
+    import optiland.analysis as A
+    from optiland import wavefront as W
+    k = op['op']
+    if k == 'wavefront':
+        cls = op['cls']
+        if cls == 'Wavefront':
+            return W.Wavefront(optic, op.get('fields', 'all'), op.get('wavelengths', 'all'), op['num_rays'],
+                               op.get('dist', 'hexapolar'))
+        if cls == 'OPDFan':
+            return W.OPDFan(optic, op.get('fields', 'all'), op.get('wavelengths', 'all'), op['num_rays'])
+        if cls == 'OPD':
+            return W.OPD(optic, tuple(op['field']), op['w'], op['num_rays'])
+        if cls == 'ZernikeOPD':
+            return W.ZernikeOPD(optic, tuple(op['field']), op['w'], op['num_rays'], op.get('ztype', 'fringe'),
+                                op.get('terms', 15))
+    if k == 'psf':
+        from optiland.psf import FFTPSF
+        return FFTPSF(optic, tuple(op['field']), op['w'], op['num_rays'], op['grid'])
+    if k == 'mtf':
+        from optiland import mtf as Mt
+        if op['cls'] == 'FFTMTF':
+            return Mt.FFTMTF(optic, op.get('fields', 'all'), op.get('w', 'primary'), op['num_rays'], op['grid'])
+        return Mt.GeometricMTF(optic, op.get('fields', 'all'), op.get('w', 'primary'), op['num_rays'],
+                               op.get('dist', 'uniform'), op.get('num_points', 32))
+    if k == 'analysis':
+        cls = op['cls']
+        if cls == 'SpotDiagram':
+            return A.SpotDiagram(optic, op.get('fields', 'all'), op.get('wavelengths', 'all'), op['num_rays'],
+                                 op.get('dist', 'hexapolar'))
+        if cls == 'EncircledEnergy':
+            return A.EncircledEnergy(optic, op.get('fields', 'all'), op.get('w', 'primary'), op['num_rays'],
+                                     op.get('dist', 'hexapolar'), op.get('num_points', 16))
+        if cls == 'RayFan':
+            return A.RayFan(optic, op.get('fields', 'all'), op.get('wavelengths', 'all'), op['num_points'])
+        if cls == 'YYbar':
+            return A.YYbar(optic, op.get('w', 'primary'))
+        if cls == 'Distortion':
+            return A.Distortion(optic, op.get('wavelengths', 'all'), op['num_points'], op.get('dtype', 'f-tan'))
+        if cls == 'GridDistortion':
+            return A.GridDistortion(optic, op.get('w', 'primary'), op['num_points'], op.get('dtype', 'f-tan'))
+        if cls == 'FieldCurvature':
+            return A.FieldCurvature(optic, op.get('wavelengths', 'all'), op['num_points'])
+        if cls == 'RmsSpotSizeVsField':
+            return A.RmsSpotSizeVsField(optic, op['num_fields'], op.get('wavelengths', 'all'), op['num_rays'])
+        if cls == 'RmsWavefrontErrorVsField':
+            return A.RmsWavefrontErrorVsField(optic, op['num_fields'], op.get('wavelengths', 'all'), op['num_rays'])
+        if cls == 'PupilAberration':
+            return A.PupilAberration(optic, op.get('fields', 'all'), op.get('wavelengths', 'all'), op['num_points'])
+    raise KeyError(str(op))
+
+
+def public_queries(obj):
+    """every public method of the object's class (inherited ones included) that can be called without
+    arguments, as (name, kwargs); view-like methods with a `projection` option are listed in both projections.
+    Found by introspection: nothing is named here."""
+    import inspect
+    out = []
+    for name, fn in inspect.getmembers(type(obj), predicate=inspect.isfunction):
+        if name.startswith('_'):
+            continue
+        params = list(inspect.signature(fn).parameters.values())[1:]
+        if any(p.default is p.empty and p.kind in (p.POSITIONAL_ONLY, p.POSITIONAL_OR_KEYWORD, p.KEYWORD_ONLY)
+               for p in params):
+            continue
+        out.append((name, {}))
+        if any(p.name == 'projection' for p in params):
+            out.append((name, {'projection': '3d'}))
+        if any(p.name == 'add_reference' for p in params):
+            out.append((name, {'add_reference': True}))
+    return out
+
+
+def object_state(obj):
+    """deep, bit-exact snapshot of everything the analysis object stores (the lens it points to is left out:
+    lens_state covers it)"""
+    d = {k: v for k, v in getattr(obj, '__dict__', {}).items() if k != 'optic'}
+    return _walk(d, frozenset({id(obj)}), 0, False)
+
+
+def _raw_arrays(o, path='', seen=None, depth=0, out=None):
+    """copies of every float ndarray the analysis object stores, keyed by path (for describing a change)"""
+    out = {} if out is None else out
+    seen = set() if seen is None else seen
+    if depth > 8 or id(o) in seen:
+        return out
+    if isinstance(o, np.ndarray):
+        if o.dtype.kind == 'f':
+            out[path] = o.copy()
+        return out
+    if isinstance(o, (list, tuple)):
+        seen.add(id(o))
+        for i, x in enumerate(o):
+            _raw_arrays(x, f'{path}[{i}]', seen, depth + 1, out)
+    elif isinstance(o, dict):
+        seen.add(id(o))
+        for k, x in o.items():
+            _raw_arrays(x, f'{path}.{k}', seen, depth + 1, out)
+    elif hasattr(o, '__dict__') and type(o).__name__ not in ('Optic',):
+        seen.add(id(o))
+        for k, x in o.__dict__.items():
+            if k != 'optic':
+                _raw_arrays(x, f'{path}.{k}', seen, depth + 1, out)
+    return out
+
+
+def _change_profile(before, after):
+    """what a state change consisted of: which arrays, how many entries, and whether every changed entry is a
+    finite value overwritten by NaN (the masking of failed rays) or something else"""
+    changed, entries, only_nan = [], 0, True
+    for k in sorted(set(before) | set(after)):
+        a, b = before.get(k), after.get(k)
+        if a is None or b is None or a.shape != b.shape:
+            changed.append(k)
+            only_nan = False
+            continue
+        diff = ~((a == b) | (np.isnan(a) & np.isnan(b)))
+        if diff.any():
+            changed.append(k)
+            entries += int(diff.sum())
+            if not np.isnan(b[diff]).all():
+                only_nan = False
+    return {'arrays': changed[:6], 'entries': entries, 'only_nan_written': bool(changed) and only_nan}
+
+
+def _call_query(obj, name, kwargs):
+    import matplotlib.pyplot as plt
+    with warnings.catch_warnings():
+        warnings.simplefilter('ignore')
+        old = np.seterr(all='ignore')
+        try:
+            r = getattr(obj, name)(**kwargs)
+            return canon(r) if not hasattr(r, '__dict__') or isinstance(r, np.ndarray) else '<' + type(r).__name__ + '>'
+        except Exception as e:   # noqa
+            return {'raised': type(e).__name__}
+        finally:
+            np.seterr(**old)
+            plt.close('all')
+
+
+def method_histories(rng, spec, build_fn, ops=None, repeats=2):
+    """for every analysis object of the catalogue: reference = each public query on a pristine copy of the object;
+    then ONE object runs a random interleaving in which every query occurs `repeats` times.  After every query: the
+    result is compared bit for bit with the reference, the object's stored state (.data ...) with its state
+    before the query, and the lens with its state before.  Returns (violations, stats)."""
+    import copy
+    ops = [op for op in (ops or gen_ops(rng, spec, True)) if op['op'] in ANALYSIS_KINDS]
+    viol = []
+    stats = {'objects': 0, 'classes': {}, 'queries': 0, 'raised': 0, 'constructor_raised': 0, 'methods': {}}
+    optic = build_fn(spec)
+    for op in ops:
+        with warnings.catch_warnings():
+            warnings.simplefilter('ignore')
+            old = np.seterr(all='ignore')
+            try:
+                obj = make_analysis(optic, op)
+            except Exception:   # noqa
+                stats['constructor_raised'] += 1
+                continue
+            finally:
+                np.seterr(**old)
+        cname = type(obj).__name__
+        qs = public_queries(obj)
+        if not qs:
+            continue
+        stats['objects'] += 1
+        stats['classes'][cname] = stats['classes'].get(cname, 0) + 1
+        stats['methods'][cname] = sorted({q[0] for q in qs})
+        ref = {}
+        for q in qs:
+            pristine = copy.deepcopy(obj, {id(obj.optic): obj.optic})
+            ref[str(q)] = _call_query(pristine, *q)
+        seq = list(qs) * repeats
+        rng.shuffle(seq)
+        s_obj = object_state(obj)
+        s_lens = lens_state(optic)
+        hist = []
+        for q in seq:
+            raw0 = _raw_arrays(obj)
+            r = _call_query(obj, *q)
+            stats['queries'] += 1
+            if isinstance(r, dict) and 'raised' in r:
+                stats['raised'] += 1
+            def base(kind, **kw):      # witness: what failed first, the lens last
+                w = {'kind': kind, 'cls': cname, 'method': q[0], 'kwargs': q[1],
+                     'history_on_this_object': [h[0] for h in hist]}
+                w.update(kw)
+                w.update({'constructor': op, 'history': [list(h) for h in hist], 'spec': spec})
+                return w
+            d = first_diff(ref[str(q)], r)
+            if d:
+                viol.append(base('analysis-query-not-repeatable', diff=d))
+            s1 = object_state(obj)
+            d = first_diff(s_obj, s1)
+            if d:
+                viol.append(base('analysis-object-state-changed', diff=d,
+                                 change=_change_profile(raw0, _raw_arrays(obj))))
+                s_obj = s1
+            l1 = lens_state(optic)
+            d = first_diff(s_lens, l1)
+            if d:
+                viol.append(base('lens-state-changed', diff=d, op={'op': 'method', 'cls': cname, 'method': q[0]}))
+                s_lens = l1
+            hist.append((q[0], q[1]))
+            if len(viol) > 40:
+                return viol, stats
+    return viol, stats
+
+
+def replay_method_history(spec, build_fn, constructor, history, method, kwargs):
+    """re-run one witness of method_histories; returns the kinds of violation seen at the last query"""
+    import copy
+    optic = build_fn(spec)
+    obj = make_analysis(optic, constructor)
+    pristine = copy.deepcopy(obj, {id(obj.optic): obj.optic})
+    ref = _call_query(pristine, method, kwargs)
+    for h in history:
+        _call_query(obj, h[0], h[1])
+    s0 = object_state(obj)
+    raw0 = _raw_arrays(obj)
+    r = _call_query(obj, method, kwargs)
+    out = []
+    if first_diff(ref, r):
+        out.append('analysis-query-not-repeatable')
+    if first_diff(s0, object_state(obj)):
+        out.append('analysis-object-state-changed')
+        out.append(_change_profile(raw0, _raw_arrays(obj)))
+    return out
